@@ -231,8 +231,9 @@ def dropPath (c : Issue) : Issue :=
 
 def extractSlice (t : Ty) : V → Option (List V)
   | .slice e (some xs) => if e = t then some xs else if xs.all (assertable t) then some xs else none
-  | .ptr (.sl e) (some (.slice _ (some xs))) => if e = t then some xs else none
-  | .ptr (.sl e) (some (.slice _ none)) => if e = t then some [] else none
+  -- since /repo ec7d81c a pointer to a slice of another element type is converted like the slice itself
+  | .ptr (.sl e) (some (.slice _ (some xs))) => if e = t then some xs else if xs.all (assertable t) then some xs else none
+  | .ptr (.sl e) (some (.slice _ none)) => if e = t || e = .any then some [] else none
   | _ => none
 
 def sliceElems (cfg : Cfg) (env : Env) (e : Mid) : Nat → List V → List Issue
@@ -299,8 +300,9 @@ def validateTuple (env : Env) (items : List Mid) (req : Nat) (rest : Option Mid)
 
 def extractMap : V → Option (List (V × V))
   | .map _ _ (some es) => some es
-  | .ptr (.mp .any .any) (some (.map _ _ (some es))) => some es
-  | .ptr (.mp .any .any) (some (.map _ _ none)) => some []
+  -- since /repo ec7d81c a pointer to a map of ANY type is converted like the map itself
+  | .ptr _ (some (.map _ _ (some es))) => some es
+  | .ptr _ (some (.map _ _ none)) => some []
   | _ => none
 
 def optErrs (env : Env) (m : Option Mid) (x : V) : List Issue :=
@@ -784,7 +786,7 @@ def nodeMods : Node → Mods
   | .slice m .. | .array m .. | .tuple m .. | .map m .. | .record m .. | .set m .. | .object m .. => m
   | _ => {}
 
-/-- `processModifiersCore` on a nil-like input that Optional / Nilable lets through: the checks "applicable to nil
+/-- (before /repo 7db47f1) `processModifiersCore` on a nil-like input that Optional / Nilable lets through: the checks "applicable to nil
     values" (`filterNilChecks`: refine / custom / overwrite) are still applied, to nil
     (`internal/engine/modifiers.go:77-82`).  What a `Refine(fn)` answers on nil is decided by the container's own
     wrapper: Object's answers true without calling `fn` (`types/object.go:474`); Slice's and Set's call `fn` on the zero
@@ -800,15 +802,19 @@ def nilChecks (n : Node) : List Issue :=
     | .custom ok => if customOnNil n ok then [] else [mk .custom []]
     | _ => [])
 
-/-- `Parse` of a container with container-level checks of every kind: the overwrite pre-pass, the checks applied to
-    an accepted nil, then `run`. -/
-def runOw (cfg : Cfg) (env : Env) (n : Node) (v : V) : Res :=
+/-- the code before /repo 7db47f1: the refine / custom checks were applied to an accepted nil too. -/
+def runOwNilLegacy (cfg : Cfg) (env : Env) (n : Node) (v : V) : Res :=
   if owBypass cfg n v then .ok
   else if v.isNilLike && nilOK (nodeMods n) then
     (match nilChecks n with
      | [] => run cfg env n v
      | i :: is => .err (i :: is))
   else run cfg env n v
+
+/-- `Parse` of a container with container-level checks of every kind: the overwrite pre-pass, then `run`
+    (since /repo 7db47f1 an accepted nil is only handed the overwrite checks: nothing can reject it). -/
+def runOw (cfg : Cfg) (env : Env) (n : Node) (v : V) : Res :=
+  if owBypass cfg n v then .ok else run cfg env n v
 
 /-- The node the constructor really builds from the schema as written: `Array` keeps only a rest schema
     that asserts to `core.ZodSchema` (`types/array.go:672-678`) — any other rest argument is dropped, the
